@@ -323,8 +323,9 @@ class Contentline(str):
 
         # TODO: after unicode only, remove this
         # Convert back to unicode, after to_ical encoded it.
+        # The value was encoded by to_ical: a leading U+FEFF is part of it, not a byte order mark.
         name = to_unicode(name)
-        values = to_unicode(values)
+        values = to_unicode(values, DEFAULT_ENCODING)
         if params:
             params = to_unicode(params.to_ical(sorted=sorted))
             return cls(f'{name};{params}:{values}')
